@@ -957,6 +957,13 @@ pub fn spec() -> PropSpec {
         min_counts: &[("far_apart_groups_revealed", 20)],
       },
       Check {
+        name: "cross-process",
+        rule: "reports produced by a fresh client process (encoded to bytes) are aggregated by three fresh server processes whose first operations are decoding and recovery (three consumer orders): the measurement is revealed with both clients' associated data",
+        gen: |_| vec![json!({})],
+        run: |cx, _| crate::probe::cross_process_check(cx, "C01", "revealed"),
+        min_counts: &[("cross_process_ok", 3)],
+      },
+      Check {
         name: "boundary-tags",
         rule: "boundary search on the report tag: among 2000 (thorough 8000) measurements those whose tag starts or ends with 0x00 / 0xff or starts with 0x7f / 0x80, each reported by exactly t = 2 clients and aggregated by the repository's reference aggregation server: revealed once, with both clients' associated data",
         gen: |tier| (0..(if tier.thorough() { 20u64 } else { 5 })).map(|c| json!({"lo": c * 400})).collect(),
